@@ -83,6 +83,12 @@ func (d *dateObject) SetTime(time Time.Time) {
 }
 
 func (d *dateObject) Set(epoch float64) {
+	// TimeClip (15.9.1.14)
+	if epoch = timeClip(epoch); math.IsNaN(epoch) {
+		d.SetNaN()
+		return
+	}
+
 	// epoch
 	d.epoch = epochToInteger(epoch)
 
@@ -121,6 +127,18 @@ func epochToTime(value float64) (Time.Time, error) {
 
 func timeToEpoch(time Time.Time) float64 {
 	return float64(time.UnixMilli())
+}
+
+// maxTimeValue is the largest magnitude of a time value (15.9.1.1).
+const maxTimeValue = 8.64e15
+
+// timeClip is TimeClip (15.9.1.14): NaN for a non-finite or out-of-range time,
+// otherwise the time truncated to an integral number of milliseconds.
+func timeClip(value float64) float64 {
+	if math.IsNaN(value) || math.IsInf(value, 0) || math.Abs(value) > maxTimeValue {
+		return math.NaN()
+	}
+	return math.Trunc(value) + 0
 }
 
 func (rt *runtime) newDateObject(epoch float64) *object {
